@@ -2,7 +2,7 @@
 // A1 value facts and operator identities of contracts/float.rs, checked on the machine's f64 for ALL bit patterns
 // (complete: loop-free harness over two symbolic f64): `<` is irreflexive, negation is an involution on the bit pattern,
 // f64::MAX == f64::MAX, a > b is b < a, a >= b is b <= a, a != b is !(a == b); 0.0 != MAX, x + 1.0 == MAX only if x == MAX,
-// == is Euclidean.
+// == is Euclidean; the order facts about f64::MAX used by the termination argument of the Dijkstra kernels.
 #[cfg(kani)]
 mod verif_kani_float {
     #[kani::proof]
@@ -20,5 +20,10 @@ mod verif_kani_float {
         assert!(!(0.0f64 == f64::MAX));
         if !(a == f64::MAX) { assert!(!(a + 1.0 == f64::MAX)); }
         if a == b && a == c { assert!(b == c); }
+        // order facts about the constant (termination of the Dijkstra kernels)
+        if a < b && b <= f64::MAX { assert!(a < f64::MAX); }
+        if a < f64::MAX { assert!(!(a == f64::MAX) && a <= f64::MAX); }
+        assert!(f64::MAX <= f64::MAX && 0.0f64 <= f64::MAX);
+        if a == f64::MAX { assert!(!(a < f64::MAX)); }
     }
 }
